@@ -284,6 +284,51 @@ def check_pairs(ctx, arts, stats):
     ctx.set("xy_vs_RZ_relative_difference", out)
 
 
+def check_operator_probes(ctx, a, stats):
+    """The x-y formulation differentiates with MeshRegion.DDX / DDY.  The generator applies
+    these to fields that are exactly linear in x and in y (vlib/genworker.derivative_probes):
+    the result must be 1 at every location of every region, x- and y-joins included (only the
+    wrap-around of a periodic y-group, where the linear field jumps, is excluded)."""
+    pr = a.side.get("derivative_probes")
+    if pr is None:
+        return
+    regs = {r["myID"]: r for r in a.side["regions"]}
+    groups = a.side["mesh"]["y_groups"]
+    wrap_first, wrap_last = set(), set()
+    for g in groups:
+        if regs[g[0]]["connections"]["lower"] is not None:
+            wrap_first.add(g[0])
+            wrap_last.add(g[-1])
+    orth = bool(a.side["mesh"]["user_options"].get("orthogonal", True))
+    for rid, d in pr.items():
+        reg = regs[rid]
+        for op in ("ddx", "ddy"):
+            for loc, v in d[op].items():
+                v = np.array(v, float)
+                ok = np.ones(v.shape, bool)
+                if op == "ddy" and loc in ("ylow", "corners"):
+                    if rid in wrap_first:
+                        ok[:, 0] = False
+                    if rid in wrap_last:
+                        ok[:, -1] = False
+                stats["operator_probe_points"] = stats.get("operator_probe_points", 0) + int(ok.sum())
+                err = np.where(ok, np.abs(v - 1.0), 0.0)
+                if not np.all(np.isfinite(err)) or err.max() > 1e-9:
+                    idx = tuple(map(int, np.argwhere(~(err <= 1e-9))[0]))
+                    edge = []
+                    if op == "ddx" and idx[0] in (0, v.shape[0] - 1):
+                        edge.append("inner" if idx[0] == 0 else "outer")
+                    if op == "ddy" and idx[1] in (0, v.shape[1] - 1):
+                        edge.append("lower" if idx[1] == 0 else "upper")
+                    ctx.violation("%s | %s of a field linear in %s is not 1 | %s%s" % (
+                        "orth" if orth else "nonorth", op.upper(), op[-1], loc,
+                        (" | at the region's %s edge" % edge[0]) if edge else ""),
+                        dict(config=a.config["label"], region=reg["name"], index=list(idx), value=float(v[idx]),
+                             neighbours={k: (regs[c]["name"] if c is not None else None)
+                                         for k, c in reg["connections"].items()}),
+                        replay=dict(config=a.config))
+
+
 def run(ctx, arts=None, pairs=True):
     if arts is None:
         arts = gu.select(ctx.tier, log=ctx.log, extra=pair_members(ctx.tier) if pairs else None)
@@ -295,6 +340,7 @@ def run(ctx, arts=None, pairs=True):
         if not a.ok:
             refused += 1
             continue
+        check_operator_probes(ctx, a, stats)
         if check_artefact(ctx, a, stats):
             n += 1
             if a.config["fpol"] in ("linear", "quad"):
